@@ -14,6 +14,7 @@ import (
 	goruntime "runtime"
 	"strconv"
 	"strings"
+	"time"
 
 	"github.com/onflow/cadence/common"
 
@@ -22,7 +23,7 @@ import (
 )
 
 func init() {
-	hx.Register(&hx.Stream{Name: "det", Gen: c33Gen, Exec: c33Exec, Parallel: false})
+	hx.Register(&hx.Stream{Name: "det", Gen: c33Gen, Exec: host.Robust(c33Exec, 120*time.Second, 900*time.Second), Parallel: false, Timeout: host.RobustTimeout})
 }
 
 func c33Multi(r *hx.Rng) (int, string) {
